@@ -40,7 +40,7 @@ class C01(Check):
                'rxsci/operators/filter.py', 'rxsci/operators/first.py', 'rxsci/operators/last.py', 'rxsci/operators/take.py', 'rxsci/operators/tee_map.py',
                'rxsci/operators/flat_map.py', 'rxsci/operators/do_action.py', 'rxsci/operators/assert_.py', 'rxsci/operators/progress.py',
                'rxsci/operators/distinct_until_changed.py', 'rxsci/data/batch.py', 'rxsci/data/clip.py', 'rxsci/data/fill_none.py', 'rxsci/data/to_list.py', 'rxsci/data/to_array.py']
-    REQUIRED_TAGS = DUAL + ['zip', 'merge', 'combine_latest', 'group', 'multiplex', 'roll', 'split', 'len>=3', 'truthy-predicates', 'many-groups', 'scale', 'assert-fails'] + PRELUDE_TAGS
+    REQUIRED_TAGS = DUAL + ['zip', 'merge', 'combine_latest', 'group', 'multiplex', 'roll', 'split', 'len>=3', 'truthy-predicates', 'many-groups', 'scale', 'assert-fails', 'seed-factory-whose-product-holds-an-identity'] + PRELUDE_TAGS
     REQUIRED_OBSERVED = ['groups_compared', 'items_compared']
 
     def generate(self, rng, tier, shard, nshards):
@@ -132,6 +132,8 @@ class C01(Check):
         for _, nd in progs.walk(prog):
             if nd[0] == 'tee_map':
                 out.tags.append(nd[1])
+            if nd[0] == 'scan' and nd[2] == 'sentinel_factory':
+                out.tags.append('seed-factory-whose-product-holds-an-identity')
         if len(prog) >= 3:
             out.tags.append('len>=3')
         if case.get('truthy'):
